@@ -775,6 +775,104 @@ fn double_delete_round(seed: u64, threads: usize, nchunks: usize) -> Option<Stri
     }
 }
 
+/// Writer / deleter / incremental-gc hammer.  A store with `long_lived` one-chunk artifacts (they make
+/// a gc pass take a while) and `hot` contents whose chunks are at count 0 and old enough to be collected
+/// (put, deleted, aged -- all before any thread starts).  Then, released by a barrier, `writers` threads
+/// loop put(hot content) -> get must return exactly those bytes -> delete, over the SAME hot contents,
+/// while one thread runs `passes` incremental gc() passes; the writers stop when gc is done.
+/// Verdict: no writer ever failed to read back an artifact it had just published, and after the threads
+/// have joined every published artifact (the long-lived ones and the writers' last ones) reads back and
+/// verifies.  Iteration counts are timing dependent and deliberately not reported.
+fn gc_hammer_round(seed: u64, writers: usize, long_lived: usize, hot: usize, passes: usize) -> Option<String> {
+    use std::sync::atomic::{AtomicBool, Ordering};
+    use std::sync::Barrier;
+    let cs = 8usize;
+    let store = TensorStore::new();
+    // min_age 0 with second granularity: only chunks created in an earlier second are collectable; the hot
+    // chunks are aged explicitly below, everything created during the run stays protected by its age
+    let config = BlobConfig::new().with_chunk_size(cs).with_gc_min_age(Duration::from_secs(0)).with_gc_batch_size(10_000_000);
+    let rt0 = tokio::runtime::Builder::new_current_thread().enable_all().build().unwrap();
+    let blob = Arc::new(rt0.block_on(BlobStore::new(store.clone(), config)).unwrap());
+    let tagb = (seed & 0xff) as u8;
+    let mut keep: Vec<(String, Vec<u8>)> = vec![];
+    for i in 0..long_lived {
+        let d = vec![tagb, 0xAA, (i >> 16) as u8, (i >> 8) as u8, i as u8, 1, 2, 3];
+        keep.push((rt0.block_on(blob.put("l", &d, PutOptions::default())).unwrap(), d));
+    }
+    let hots: Vec<Vec<u8>> = (0..hot).map(|i| vec![tagb, 0xBB, (i >> 8) as u8, i as u8, 9, 9, 9, 9]).collect();
+    for d in &hots {
+        let id = rt0.block_on(blob.put("h", d, PutOptions::default())).unwrap();
+        rt0.block_on(blob.delete(&id)).unwrap();
+    }
+    // age every chunk (single-threaded, before the threads exist)
+    for key in store.scan("_blob:chunk:") {
+        if let Ok(mut t) = store.get(&key) {
+            t.set("_created", TensorValue::Scalar(ScalarValue::Int(0)));
+            store.put(&key, t).unwrap();
+        }
+    }
+    let done = Arc::new(AtomicBool::new(false));
+    let barrier = Arc::new(Barrier::new(writers + 1));
+    let mut handles = vec![];
+    for w in 0..writers {
+        let (blob, hots, done, barrier) = (blob.clone(), hots.clone(), done.clone(), barrier.clone());
+        handles.push(std::thread::spawn(move || -> (Option<String>, Option<(String, Vec<u8>)>) {
+            let rt = tokio::runtime::Builder::new_current_thread().enable_all().build().unwrap();
+            let mut r = Rng::new(seed.wrapping_add(w as u64 + 1));
+            let mut last: Option<(String, Vec<u8>)> = None;
+            barrier.wait();
+            loop {
+                let d = r.pick(&hots).clone();
+                let id = match rt.block_on(blob.put("h", &d, PutOptions::default())) {
+                    Ok(id) => id,
+                    Err(e) => return (Some(format!("put failed: {e}")), None),
+                };
+                std::thread::yield_now();
+                match rt.block_on(blob.get(&id)) {
+                    Ok(x) if x == d => {}
+                    Ok(x) => return (Some(format!("writer {w}: artifact just written as {:?} reads back {:?}", d, x)), None),
+                    Err(e) => return (Some(format!("writer {w}: artifact just written as {:?} is unreadable while incremental gc runs: {e}", d)), None),
+                }
+                if done.load(Ordering::SeqCst) {
+                    last = Some((id, d));
+                    break;
+                }
+                let _ = rt.block_on(blob.delete(&id));
+            }
+            (None, last)
+        }));
+    }
+    barrier.wait();
+    for _ in 0..passes {
+        let _ = rt0.block_on(blob.gc());
+    }
+    done.store(true, Ordering::SeqCst);
+    let mut first_err = None;
+    for h in handles {
+        let (err, last) = h.join().unwrap();
+        if first_err.is_none() {
+            first_err = err;
+        }
+        if let Some(x) = last {
+            keep.push(x);
+        }
+    }
+    if first_err.is_some() {
+        return first_err;
+    }
+    // quiescence: every published artifact reads back and verifies
+    for (id, d) in &keep {
+        match rt0.block_on(blob.get(id)) {
+            Ok(x) if &x == d => {}
+            other => return Some(format!("at quiescence a published artifact written as {:?} reads {:?}", d, other.map_err(|e| e.to_string()))),
+        }
+        if !matches!(blob.verify(id), Ok(true)) {
+            return Some(format!("at quiescence a published artifact written as {:?} does not verify", d));
+        }
+    }
+    None
+}
+
 fn main() {
     let args = Args::parse();
     quiet_panics();
@@ -853,6 +951,20 @@ fn main() {
             &[Op::Put(vec![3, 3, 0, 0, 3, 3]), Op::Put(vec![3, 3, 3, 3, 3]), Op::Delete(1), Op::Advance(5000), Op::Gc, Op::Get(0), Op::Delete(0), Op::Gc, Op::Stats],
             "corpus repeated chunk, both artifacts repeat it",
         );
+        // repair while an artifact lists the same chunk several times, then a sharer, delete, aged gc
+        push_trace(
+            &mut trace,
+            4,
+            &[Op::Put(rep.clone()), Op::Repair, Op::Put(vec![7, 7, 7, 7]), Op::Delete(0), Op::Advance(3000), Op::Gc, Op::Get(1), Op::Verify(1)],
+            "corpus repair with a chunk repeated inside one artifact, then sharer, delete, aged gc",
+        );
+        push_trace(
+            &mut trace,
+            2,
+            &[Op::Put(vec![5, 5, 5, 5, 5, 5]), Op::Put(vec![5, 5, 1]), Op::Repair, Op::Delete(0), Op::Advance(2000), Op::Gc, Op::Get(1), Op::Repair, Op::Get(1)],
+            "corpus repair with a repeated and shared chunk, delete the repeating artifact, aged gc",
+        );
+        dist.add("corpus", 2);
         // a writer whose latest chunk is a dedup hit; the owner of that chunk is deleted; full_gc / repair
         // before finish
         for (collector, label) in [(Op::FullGc, "full_gc"), (Op::Repair, "repair")] {
@@ -1029,6 +1141,19 @@ fn main() {
         if let Some(what) = res {
             dist.hit("stress.double_delete_hit");
             hits.push("concurrent-delete", &what, json!({"double_delete_seed": seed, "threads": threads, "chunks": 300}));
+        }
+    }
+
+    let hrounds = args.budget(8, 120);
+    for i in 0..hrounds {
+        let writers = 2 + (i % 2);
+        let seed = rng.next();
+        let res = gc_hammer_round(seed, writers, 1500, 32, 3);
+        dist.hit("stress.gc_hammer");
+        stress.push(&format!("{seed}"), &format!("writer/deleter/gc hammer seed={seed} writers={writers} long_lived=1500 hot=32 passes=3 -> {:?}", res), true);
+        if let Some(what) = res {
+            dist.hit("stress.gc_hammer_hit");
+            hits.push("concurrent-gc", &what, json!({"gc_hammer_seed": seed, "writers": writers, "long_lived": 1500, "hot": 32, "gc_passes": 3}));
         }
     }
 
